@@ -2239,8 +2239,13 @@ f_objects (void)
         }
       else if (func)
         {
-          push_object (ob);
-          v = apply (func, target, 1, ORIGIN_EFUN);
+          if (target->flags & O_DESTRUCTED)
+            v = 0;		/* destructed by an earlier call: like a function that is gone */
+          else
+            {
+              push_object (ob);
+              v = apply (func, target, 1, ORIGIN_EFUN);
+            }
           if (!v)
             {
               FREE_MSTR ((char *) tmp);
